@@ -215,4 +215,79 @@ theorem contiguous_flat_eq_logical {s : Src} (hs : s.Consistent) (hc : s.isCCont
       rw [this, ← hf, Nat.zero_mul, Nat.add_zero, hs.len]
   · simp at hf
 
+
+/-! ## exported views: the bytes a consumer sees are the array's elements -/
+
+theorem gather_of_nat (mem : List Nat) (isz off : Nat) : ∀ (os : List Nat),
+    (∀ o ∈ os, off + o + isz ≤ mem.length) →
+    gather mem isz off (os.map Int.ofNat) = some (os.flatMap (fun o => (mem.drop (off + o)).take isz)) := by
+  intro os
+  induction os with
+  | nil => intro _; rfl
+  | cons o t ih =>
+    intro hin
+    have ho := hin o (by simp)
+    have hit : itemAt mem isz ((off : Int) + Int.ofNat o) = some ((mem.drop (off + o)).take isz) := by
+      unfold itemAt
+      have h0 : (0 : Int) ≤ (off : Int) + Int.ofNat o := by simp only [Int.ofNat_eq_natCast]; omega
+      have h1 : ((off : Int) + Int.ofNat o).toNat = off + o := by simp only [Int.ofNat_eq_natCast]; omega
+      rw [if_pos ⟨h0, by rw [h1]; exact ho⟩, h1]
+    simp only [List.map_cons, gather, hit, ih (fun o' ho' => hin o' (by simp [ho'])), List.flatMap_cons]
+
+/-- byte offsets of the items in C order, over the naturals (exported views have non-negative strides) -/
+def natOffsets : List Nat → List Nat → List Nat
+  | [], _ => [0]
+  | _ :: _, [] => []
+  | n :: ns, st :: sts => (List.range n).flatMap (fun i => (natOffsets ns sts).map (fun o => i * st + o))
+
+theorem itemOffsets_nat : ∀ (shape strides : List Nat),
+    itemOffsets shape (strides.map Int.ofNat) = (natOffsets shape strides).map Int.ofNat := by
+  intro shape
+  induction shape with
+  | nil => intro _; rfl
+  | cons n ns ih =>
+    intro strides
+    cases strides with
+    | nil => rfl
+    | cons st sts =>
+      simp only [List.map_cons, itemOffsets, natOffsets, ih sts, List.map_flatMap, List.map_map]
+      congr 1
+
+theorem flatMap_pure {α β : Type} (l : List α) (f : α → β) : l.flatMap (fun i => [f i]) = l.map f := by
+  induction l with
+  | nil => rfl
+  | cons a t ih => simp [ih]
+
+/-- **exported contents, any dimension**: a consumer of the view `getbuffer` fills in reads, in C order, the
+    `itemsize`-byte items at `off + Σ index_d · stride_d` of the array's storage -/
+theorem export_contents (cfg : BufCfg) (t : ElemTy) (n stride : Nat) (mem : List Nat) (off : Nat)
+    (hin : ∀ o ∈ natOffsets (apiShape t n stride) (apiStrides t stride), off + o + t.atomicSize ≤ mem.length) :
+    exportBytes cfg t n stride mem off
+      = some ((natOffsets (apiShape t n stride) (apiStrides t stride)).flatMap
+          (fun o => (mem.drop (off + o)).take t.atomicSize)) := by
+  unfold exportBytes exportView Src.logicalBytes getbuffer
+  simp only
+  rw [itemOffsets_nat, gather_of_nat _ _ _ _ hin]
+
+/-- 1-D export (scalar arrays, dense or STRIDED — e.g. the component array `.y` of a vector array): one item every
+    `atomicSize·width·stride` bytes -/
+theorem natOffsets_1d (t : ElemTy) (hd : t.dims = 1) (n stride : Nat) :
+    natOffsets (apiShape t n stride) (apiStrides t stride)
+      = (List.range n).map (fun i => i * (t.atomicSize * t.width * stride)) := by
+  simp only [apiShape, apiStrides, hd, Nat.sub_self, List.replicate_zero, natOffsets, List.map_cons, List.map_nil,
+    Nat.add_zero]
+  exact flatMap_pure _ _
+
+/-- 2-D export (vector arrays): for every element its `width·stride` items, `atomicSize` bytes apart -/
+theorem natOffsets_2d (t : ElemTy) (hd : t.dims = 2) (n stride : Nat) :
+    natOffsets (apiShape t n stride) (apiStrides t stride)
+      = (List.range n).flatMap (fun i => (List.range (t.width * stride)).map
+          (fun j => i * (t.atomicSize * t.width * stride) + j * t.atomicSize)) := by
+  simp only [apiShape, apiStrides, hd, show 2 - 1 = 1 from rfl, List.replicate_succ, List.replicate_zero, natOffsets,
+    List.map_cons, List.map_nil, Nat.add_zero]
+  congr 1
+  funext i
+  rw [flatMap_pure, List.map_map]
+  rfl
+
 end ImathVerif.BufferProtocol
